@@ -10,6 +10,7 @@ var checks = map[string]func(*Report){
 	"C03": runC03,
 	"C11": runC11,
 	"C14": runC14,
+	"C15": runC15,
 	"C16": runC16,
 	"C17": runC17,
 	"C12": runC12,
